@@ -772,11 +772,16 @@ impl<E: Effect> Executor<E> {
         let injected_result = self.inject_heap_data(result, &heap)?;
 
         // Store the result in the process's awaiting map (retaining as it enters storage).
+        // A result can be delivered more than once (one registration per select that listed the
+        // process); the copy it replaces leaves storage here and must be released.
         if self.get_process(awaiter).is_some() {
             self.retain(&injected_result);
             let process = self.get_process_mut(awaiter).unwrap();
             process.await_unanswered.remove(&awaited);
-            process.awaiting.insert(awaited, Some(injected_result));
+            let replaced = process.awaiting.insert(awaited, Some(injected_result));
+            if let Some(Some(previous)) = replaced {
+                self.release(&previous);
+            }
         }
 
         // Re-queue awaiter to retry its Select instruction
